@@ -18,7 +18,7 @@ import (
 // A probe installed as the first global middleware snapshots the context at
 // entry of every request.
 
-var kindNames = []string{"store", "errors", "abort", "status-write", "replace-resp", "replace-req", "set-handlers", "dynamic", "dynamic2", "notfound", "notallowed", "panic", "redispatch", "nested", "copy", "mutate-params", "dynamic3", "delegate", "hijack", "mutate-novar", "novar", "keep-copy"}
+var kindNames = []string{"store", "errors", "abort", "status-write", "replace-resp", "replace-req", "set-handlers", "dynamic", "dynamic2", "notfound", "notallowed", "panic", "redispatch", "nested", "copy", "mutate-params", "dynamic3", "delegate", "hijack", "mutate-novar", "novar", "keep-copy", "panic-status", "mutate-query", "query"}
 
 type kindReq struct {
 	method, path string
@@ -51,6 +51,11 @@ var kindReqs = map[string]kindReq{
 	"mutate-novar": {"POST", "/mo.html"},
 	"novar":        {"GET", "/mo.html"},
 	"keep-copy":    {"GET", "/keep/5"},
+	// a handler that records a status without committing it and panics; a handler that edits the url.Values it got from
+	// QueryValues (strip a parameter, add one), and a plain request with the byte-identical query string
+	"panic-status": {"GET", "/boomst"},
+	"mutate-query": {"GET", "/mq?token=abc&x=1"},
+	"query":        {"GET", "/q?token=abc&x=1"},
 }
 
 type wrapW struct{ http.ResponseWriter }
@@ -222,6 +227,20 @@ func newKindRouter(cfg kindCfg) *kindRouter {
 		k.keptWant = k.describeKept()
 		c.WriteString("kept")
 	})
+	get("/boomst", func(c *rux.Context) {
+		c.SetStatus(403)
+		c.SetHeader("X-Boom", "1")
+		panic("boom after SetStatus")
+	})
+	get("/mq", func(c *rux.Context) {
+		q := c.QueryValues()
+		q.Del("token")
+		q.Set("seen", "1")
+		c.WriteString("mq:" + q.Encode())
+	})
+	get("/q", func(c *rux.Context) {
+		c.WriteString(fmt.Sprintf("q:%s token=%s seen=%s", c.QueryValues().Encode(), c.Query("token"), c.Query("seen", "-")))
+	})
 	get("/copy", func(c *rux.Context) {
 		cp := c.Copy()
 		cp.Set("in-copy", 1)
@@ -255,7 +274,7 @@ func (k *kindRouter) probe(c *rux.Context) string {
 	for _, key := range keys {
 		fmt.Fprintf(&sb, "%s=%v;", key, data[key])
 	}
-	fmt.Fprintf(&sb, "} params{%s} errors=%d first=%v aborted=%v status=%d length=%d chain=%d", canonParams(c.Params), len(c.Errors), c.FirstError(), c.IsAborted(), c.StatusCode(), c.Length(), c.VerifChainLen())
+	fmt.Fprintf(&sb, "} query{%s} params{%s} errors=%d first=%v aborted=%v status=%d length=%d chain=%d", c.QueryValues().Encode(), canonParams(c.Params), len(c.Errors), c.FirstError(), c.IsAborted(), c.StatusCode(), c.Length(), c.VerifChainLen())
 	if k.depth == 0 {
 		_, ownWriter := c.Resp.(*wrapW)
 		fmt.Fprintf(&sb, " resp-replaced=%v raw-writer-is-this-recorder=%v req-is-this-request=%v reqctx=%v router-is-this-router=%v", ownWriter, c.RawWriter() == http.ResponseWriter(k.curRec), c.Req == k.curReq, c.ReqCtxValue("rk"), c.Router() == k.r)
